@@ -163,3 +163,22 @@ def r_C03fgh(root):
     ob("C03", "C03.d", M, "textx_isinstance", "inheritors are searched recursively, default False", has_rec and bool(rec_rows))
     if not has_rec: out.append(Finding("C03", "C03.d", M, "textx_isinstance", "recursion over _tx_inh_by", "inheritors of an abstract class are not searched"))
     return inst, out
+
+def r_C03j(root):
+    """C03.j  the static inference of rule kinds / inheritance and the result selection at run time agree on what can
+       yield a result: syntactic predicates (And / Not) consume nothing and leave no parse-tree node, so the two walkers
+       of _determine_rule_type (_has_nonmatch_ref, _add_reffered_classes) skip them — every use of a node's `.root` /
+       `._tx_class` in these walkers lies where the node is known not to be an And/Not."""
+    import re as _re
+    L = "textx/lang.py"; out = []; inst = 0
+    t = load(root, L)
+    for q in ("TextXVisitor._determine_rule_types._determine_rule_type._has_nonmatch_ref", "TextXVisitor._determine_rule_types._determine_rule_type._add_reffered_classes"):
+        fn = find(t, q); fi = sem.info(fn)
+        uses = [x for x in own_nodes(fn) if isinstance(x, ast.Attribute) and x.attr == "root" and isinstance(x.value, ast.Name) and isinstance(x.ctx, ast.Load)]
+        if not uses: raise AnalysisError("%s: no use of .root found" % q)
+        for u in uses:
+            inst += 1; v = u.value.id
+            ok = any((not pol) and _re.match(r"isinstance\(%s,\s*(\(?\s*(And|Not)\s*,\s*(And|Not)\s*\)?|SyntaxPredicate)\)" % _re.escape(v), a) for a, pol in fi.atoms_at(u))
+            ob("C03", "C03.j", L, q.split(".")[-1], "%s.root is read only for nodes that are not syntactic predicates" % v, ok)
+            if not ok: out.append(Finding("C03", "C03.j", L, q.split(".")[-1], " ".join(ast.unparse(stmt_of(u)).split())[:90], "a rule referenced inside a syntactic predicate (!X / &X) is taken as a class the rule yields: the predicate leaves no result at run time, so the rule kind and the inheritance list disagree with the objects the rule produces (textx_isinstance is False for them)", witness="A: !B C | B;   — the C objects do not conform to A"))
+    return inst, out
